@@ -1085,6 +1085,25 @@ func main() {
 	}
 	w("]\n\n")
 
+	// identifier resolution
+	order, enter := extractResolve(cmpF)
+	w("def resolveOrder : List ResolveStep := [")
+	for i, st := range order {
+		if i > 0 {
+			w(", ")
+		}
+		w(".%s", st)
+	}
+	w("]\n")
+	w("def enterFuncCases : List String := [")
+	for i, e := range enter {
+		if i > 0 {
+			w(", ")
+		}
+		w("%s", q(e))
+	}
+	w("]\n\n")
+
 	sort.Strings(unrec)
 	w("def unrecognised : List String := [")
 	for i, u := range unrec {
